@@ -112,6 +112,16 @@ CHECKS = {
              'instances that were saved as deleted; delete only for unreferenced instances.',
         technique='exhaustive enumeration of state assignments x fixed save/load history on the real object + reference-model comparison',
         ref='3/C16'),
+    'C17': dict(
+        text='Exhaustive program-family enumeration: the generated family (feature schemas, multi-schema, packed kinds and inheritance), the exhaustive family of '
+             'defined-type shapes (every simple type, enumeration, select, every aggregate kind of each, nested aggregates, renamed enumerations/selects/simple types '
+             'and alias chains of length 1-3, aggregates and selects of those, unused types; packed AND one schema per shape), naming collisions (enum vs *_var, C++ and '
+             'Part 21 keywords, mixed case) and the shipped schemas; for each, schema_scanner (built stand-alone from the working tree as the configure step does) and '
+             'exp2cxx run on the same file in separate empty directories and the listed file set must equal the written one; schema names and file counts are compared.',
+        note='Trusted: the regular expression that reads the scanner\'s CMakeLists.txt. The two *_unity_*.h helper headers are not required in the lists; a schema '
+             'that exp2cxx rejects is judged by C04/C06, not here.',
+        technique='exhaustive program-family enumeration on the two real tools + differential (set equality) oracle',
+        ref='3/C17'),
     'C19': dict(
         text='Explicit-state breadth-first search over operation histories on the real Python ARRAY/LIST/BAG/SET classes: 1224 constructions '
              '(bounds -1..3 x 0..4/unbounded x UNIQUE x OPTIONAL x 5 base types), every item assignment/add/read/query in every distinct state to depth 6 '
